@@ -37,6 +37,28 @@ T = [
  ('C19-m1', '/tmp/mut-C19/mutants/1', 'C19', [('demo_test.rs', 'src/tests/sim_tests/macro_sim_tests.rs', M, 'c19_m1')]),
  ('C19-m2', '/tmp/mut-C19/mutants/2', 'C19', [('demo_test.rs', 'src/tests/sim_tests/macro_sim_tests.rs', M, 'c19_m2')]),
  ('C19-m3', '/tmp/mut-C19/mutants/3', 'C19', [('demo_test.rs', 'src/tests/sim_tests/macro_sim_tests.rs', M, 'c19_m3')]),
+ # ---- round 2 (targeted at functions under contract; first-round changes excluded)
+ ('C10-r2m1', '/tmp/mut-R2a/mutants/1', 'C10', [('demo_test.rs', 'keyberon/src/action/switch.rs', K, 'mutdemo_r2a_1')]),
+ ('C10-r2m2', '/tmp/mut-R2a/mutants/2', 'C10', [('demo_test.rs', 'keyberon/src/action/switch.rs', K, 'mutdemo_r2a_2')]),
+ ('C10-r2m3', '/tmp/mut-R2a/mutants/3', 'C10', [('demo_test.rs', 'keyberon/src/action/switch.rs', K, 'mutdemo_r2a_3')]),
+ ('C10-r2m4', '/tmp/mut-R2a/mutants/4', 'C10', [('demo_test.rs', 'src/tests/sim_tests/switch_sim_tests.rs', M, 'mutdemo_r2a_4')]),
+ ('C19-r2m1', '/tmp/mut-R2b/mutants/1', 'C19', [('demo_test.rs', 'src/tests/sim_tests/macro_sim_tests.rs', M, 'mutdemo1_')]),
+ ('C19-r2m2', '/tmp/mut-R2b/mutants/2', 'C19', [('demo_test.rs', 'src/tests/sim_tests/macro_sim_tests.rs', M, 'mutdemo2_')]),
+ ('C19-r2m3', '/tmp/mut-R2b/mutants/3', 'C19', [('demo_test.rs', 'src/tests/sim_tests/macro_sim_tests.rs', M, 'mutdemo3_')]),
+ ('C11-r2m4', '/tmp/mut-R2b/mutants/4', 'C11', [('demo_test.rs', 'parser/src/cfg/tests.rs', P, 'mutdemo4_')]),
+ ('C11-r2m5', '/tmp/mut-R2b/mutants/5', 'C11', [('demo_test.rs', 'src/tests/sim_tests/mod.rs', M, 'mutdemo5_')]),
+ ('C06-r2m1', '/tmp/mut-R2c/mutants/1', 'C06', [('demo_test.rs', 'keyberon/src/layout.rs', K, 'mut_demo_c06_no_lingering')]),
+ ('C06-r2m2', '/tmp/mut-R2c/mutants/2', 'C06', [('demo_test.rs', 'keyberon/src/layout.rs', K, 'mut_demo_c06_repress_of_first')]),
+ ('C17-r2m3', '/tmp/mut-R2c/mutants/3', 'C17', [('demo_test.rs', 'keyberon/src/layout.rs', K, 'mut_demo_c17_count_ends')]),
+ ('C17-r2m4', '/tmp/mut-R2c/mutants/4', 'C17', [('demo_test.rs', 'keyberon/src/layout.rs', K, 'mut_demo_c17_eager_every_tap')]),
+ ('C05-r2m5', '/tmp/mut-R2c/mutants/5', 'C05', [('demo_test.rs', 'src/tests/sim_tests/release_sim_tests.rs', M, 'mut_demo_c05_except_keys')]),
+ ('C05-r2m6', '/tmp/mut-R2c/mutants/6', 'C05', [('demo_test.rs', 'keyberon/src/layout.rs', K, 'mut_demo_c05_permissive_hold')]),
+ ('C09-r2m1', '/tmp/mut-R2d/mutants/1', 'C09', [('demo_test.rs', 'src/tests/sim_tests/chord_sim_tests.rs', M, 'mut1_chords_v1')]),
+ ('C09-r2m2', '/tmp/mut-R2d/mutants/2', 'C09', [('demo_test.rs', 'src/tests/sim_tests/chord_sim_tests.rs', M, 'mut2_key_after')]),
+ ('C09-r2m3', '/tmp/mut-R2d/mutants/3', 'C09', [('demo_test.rs', 'src/tests/sim_tests/chord_sim_tests.rs', M, 'mut3_held_chord')]),
+ ('C02-r2m4', '/tmp/mut-R2d/mutants/4', 'C02', [('demo_test.rs', 'src/tests/sim_tests/mod.rs', M, 'mut4_tap_dance_eager')]),
+ ('C02-r2m5', '/tmp/mut-R2d/mutants/5', 'C02', [('demo_test.rs', 'src/tests/sim_tests/mod.rs', M, 'mut5_dynamic_macro')]),
+ ('C02-r2m6', '/tmp/mut-R2d/mutants/6', 'C02', [('demo_test.rs', 'src/tests/sim_tests/mod.rs', M, 'mut6_largest')]),
 ]
 ENV = dict(os.environ, CARGO_TARGET_DIR=TGT, CARGO_NET_OFFLINE='true')
 
